@@ -154,6 +154,9 @@ func (c *fakeClient) ProcessRange(ctx context.Context, req *pbssinternal.Process
 				sent++
 				if (kind == MID || kind == MIDC) && sent >= 1 {
 					cancel() // the connection is gone: the server's context is cancelled, nothing more reaches the client
+					if kind == MIDC {
+						return status.Error(codes.Canceled, "context canceled") // what a send on a cancelled stream answers
+					}
 					return status.Error(codes.Unavailable, "transport is closing")
 				}
 				select {
